@@ -5,8 +5,11 @@ package fclient
 import (
 	"context"
 	"net"
+	"net/http"
 	"sort"
 	"time"
+
+	"github.com/matrix-org/gomatrixserverlib/spec"
 )
 
 // In-package access to the DNS cache for the concurrency check (instrumented flavour only).
@@ -72,4 +75,35 @@ func VerifTransportSNI(rt interface{}) (sni string, id interface{}) {
 		return "", nil
 	}
 	return t.TLSClientConfig.ServerName, t
+}
+
+// ---- final hop of destinationTripper.RoundTrip (concurrency check of the resolution cache)
+
+// VerifRoundTripHook, when set, answers the last hop of destinationTripper.RoundTrip in place of the real http.Transport, so
+// that RoundTrip can be driven under the cooperative scheduler without sockets. The method below shadows the RoundTrip
+// promoted from the embedded *http.Transport; with the hook unset it is the promoted method.
+var VerifRoundTripHook func(sni string, r *http.Request) (*http.Response, error)
+
+func (t *destinationTripperTransport) RoundTrip(r *http.Request) (*http.Response, error) {
+	if h := VerifRoundTripHook; h != nil {
+		sni := ""
+		if t.Transport != nil && t.TLSClientConfig != nil {
+			sni = t.TLSClientConfig.ServerName
+		}
+		return h(sni, r)
+	}
+	return t.Transport.RoundTrip(r)
+}
+
+// ResolutionCache is an unsynchronised dump of the tripper's resolution cache (for a harness under the cooperative scheduler,
+// or after joining).
+func (t *VerifTripper) ResolutionCache() map[string][]ResolutionResult {
+	out := map[string][]ResolutionResult{}
+	t.f.resolutionCache.Range(func(k, v interface{}) bool {
+		n, _ := k.(spec.ServerName)
+		rs, _ := v.([]ResolutionResult)
+		out[string(n)] = append([]ResolutionResult(nil), rs...)
+		return true
+	})
+	return out
 }
